@@ -278,6 +278,8 @@ pub trait RwsStr {
             self.sview().len() == 0 ==> r.is_none();
     fn rws_matches_count(&self, p: &str) -> (r: usize)
         ensures p@.len() == 1 ==> r == count_char(self.sview(), p@[0]);
+    fn rws_chars_rev_collect(&self) -> (r: String)
+        ensures r@ == self.sview().reverse();
 }
 
 pub open spec fn count_char(s: Seq<char>, c: char) -> nat
@@ -296,6 +298,8 @@ impl RwsStr for str {
     fn rws_chars_last(&self) -> Option<char> { self.chars().last() }
     #[verifier::external_body]
     fn rws_matches_count(&self, p: &str) -> usize { self.matches(p).count() }
+    #[verifier::external_body]
+    fn rws_chars_rev_collect(&self) -> String { self.chars().rev().collect::<String>() }
 }
 impl RwsStr for String {
     open spec fn sview(&self) -> Seq<char> { self@ }
@@ -307,6 +311,8 @@ impl RwsStr for String {
     fn rws_chars_last(&self) -> Option<char> { self.chars().last() }
     #[verifier::external_body]
     fn rws_matches_count(&self, p: &str) -> usize { self.matches(p).count() }
+    #[verifier::external_body]
+    fn rws_chars_rev_collect(&self) -> String { self.chars().rev().collect::<String>() }
 }
 
 // .len(): bytes for str/String (UTF-8 length), elements for Vec/slice/array (these three are verified, not assumed)
@@ -1072,7 +1078,9 @@ pub open spec fn without_char(s: Seq<char>, c: char) -> Seq<char>
 pub trait RwsReplace {
     spec fn sv7(&self) -> Seq<char>;
     fn rws_replace(&self, from: &str, to: &str) -> (r: String)
-        ensures from@.len() == 1 && to@.len() == 0 ==> r@ == without_char(self.sv7(), from@[0]);
+        ensures
+            from@.len() == 1 && to@.len() == 0 ==> r@ == without_char(self.sv7(), from@[0]),
+            from@ == to@ ==> r@ == self.sv7();
 }
 impl RwsReplace for str {
     open spec fn sv7(&self) -> Seq<char> { self@ }
